@@ -605,11 +605,12 @@ def corridors(K, grid, heights):
 def C19(tier):
     q = tier == "quick"
     cubes = corridors(1, 2, [[20]]) + corridors(2, 3, [[20, 20], [10, 30], [30, 10]])
-    cubes += corridors(3, 2, [[20, 20, 20]]) if q else corridors(3, 5, [[20, 20, 20]]) + corridors(3, 3, [[10, 30, 20], [30, 10, 10]]) + corridors(2, 5, [[10, 40], [40, 10]])
+    generic = [c for c in corridors(3, 5, [[20, 20, 20]]) if len({c["l[0]"], c["l[1]"], c["l[2]"], c["r[0]"], c["r[1]"], c["r[2]"]}) == 6]
+    cubes += corridors(3, 2, [[20, 20, 20]]) + generic if q else corridors(3, 3, [[20, 20, 20], [10, 30, 20]]) + generic + corridors(2, 5, [[10, 40], [40, 10]])
     obs = [dict(name="shortest-open", pkg="internal/geom", func="Harness_C19", consts={"OPEN": 1, "PANICS": 1}, cubes=cubes, enctimeout=300, qtimeout=120, loop=48,
                 bounds="all well-formed corridors of 1..3 rectangles with left/right edges on a grid (x10): K=2 grid 0..3 with heights {20,20},{10,30},{30,10}; K=3 grid %s; "
                        "symbolic: x of the start point on the top side of the first and of the end point on the bottom side of the last rectangle, strictly between "
-                       "the corners (as phase5 calls it); panic sites included" % nm(q, "0..2 heights {20,20,20}", "0..5 heights {20,20,20}, 0..3 heights {10,30,20},{30,10,10}; K=2 grid 0..5 heights {10,40},{40,10}"))]
+                       "the corners (as phase5 calls it); panic sites included" % nm(q, "0..2 heights {20,20,20} plus the 44 generic-position corridors on grid 0..5 (six distinct x levels)", "0..3 heights {20,20,20},{10,30,20} plus the 44 generic-position corridors on grid 0..5; K=2 grid 0..5 heights {10,40},{40,10}"))]
     corner = corridors(1, 1, [[20]])
     obs.append(dict(name="shortest-corner-class", pkg="internal/geom", func="Harness_C19", consts={"OPEN": 2, "PANICS": 1}, cubes=corner, enctimeout=60, qtimeout=60, loop=48,
                     replay_timeout=15, validate_cubes=0,
